@@ -48,4 +48,40 @@ example : (run { exK1 with fds := fun n => if n < 3 then some ⟨0, false⟩ els
     [.pipe, .write 4 [1, 2, 3], .read 3 2, .write 4 [4, 5], .read 3 8, .read 3 1, .close 4, .read 3 1]).1 =
     [.pair 3 4, .num 3, .bytes [1, 2], .num 2, .bytes [3, 4, 5], .err .EAGAIN, .ok, .bytes []] := by decide
 
+/-- ★ The remaining readiness rules of a pipe, over the driver's `step`.  Reading an EMPTY pipe (nothing unread
+    at the read position, a request for at least one byte): EAGAIN exactly while some descriptor is open on the
+    write end, end-of-file (zero bytes) exactly when none is — never end-of-file while a writer exists.  Writing:
+    EPIPE exactly when no descriptor is open on the read end (a full pipe included); with a reader, a full pipe
+    answers EAGAIN. -/
+theorem pipe_blocking_rules (k : K) (fd i m n : Nat) (o : Ofd) (c bs : Bytes)
+    (hg : getOfd k fd = some (i, o)) (hp : o.pipe = true)
+    (hl : lookup k.tree o.path = some (.reg m c)) :
+    (o.rd = true → 0 < n → readAt c o.off n = [] →
+      ((step k (.read fd n)).2 = .err .EAGAIN ↔ pipeEndOpen k o.path true = true) ∧
+      ((step k (.read fd n)).2 = .bytes [] ↔ pipeEndOpen k o.path true = false)) ∧
+    (o.wr = true →
+      ((step k (.write fd bs)).2 = .err .EPIPE ↔ pipeEndOpen k o.path false = false) ∧
+      (pipeEndOpen k o.path false = true → o.full = true → (step k (.write fd bs)).2 = .err .EAGAIN)) := by
+  refine ⟨?_, ?_⟩
+  · intro hr hn he
+    have hn0 : n ≠ 0 := by omega
+    cases hw : pipeEndOpen k o.path true
+    · simp [step, readAny, hg, hp, hr, hl, hn0, he, hw, read]
+    · simp [step, readAny, hg, hp, hr, hl, hn0, he, hw]
+  · intro hw
+    cases hrd : pipeEndOpen k o.path false
+    · simp [step, writeAny, hg, hp, hw, hrd]
+    · refine ⟨?_, ?_⟩
+      · simp only [Bool.true_eq_false, iff_false]
+        cases hf : o.full
+        · simp only [step, writeAny, hg, hp, hw, hrd, hf, write, hl]
+          by_cases hb : bs.isEmpty <;> simp [hb]
+        · simp [step, writeAny, hg, hp, hw, hrd, hf]
+      · intro _ hf
+        simp [step, writeAny, hg, hp, hw, hrd, hf]
+
+example : (run { exK1 with fds := fun n => if n < 3 then some ⟨0, false⟩ else none }
+    [.pipe, .read 3 1, .close 4, .read 3 1, .pipe, .close 4, .write 5 [1]]).1 =
+    [.pair 3 4, .err .EAGAIN, .ok, .bytes [], .pair 4 5, .ok, .err .EPIPE] := by decide
+
 end YashModel.Kernel
